@@ -62,6 +62,10 @@ type rlSpec struct {
 	GlobalBurst int
 	MaxBatch    int
 	SecretFile  string // pull token comes from file:<SecretFile> when set
+	Backpress   int    // 0 = block absent, 1 = adaptive_backpressure on with low thresholds (sheds under the attached pressure store), 2 = off
+	PullExtra   string // extra lines inside pull_api (restart-requiring settings)
+	AdminExtra  string // extra lines inside admin_api
+	TopExtra    string // extra top-level blocks (restart-requiring settings)
 }
 
 func (s rlSpec) text() string {
@@ -69,7 +73,16 @@ func (s rlSpec) text() string {
 	if s.GlobalBurst > 0 {
 		fmt.Fprintf(&b, "ingress {\n  rate_limit {\n    rps 0.0001\n    burst %d\n  }\n}\n", s.GlobalBurst)
 	}
+	if s.Backpress > 0 {
+		on := "on"
+		if s.Backpress == 2 {
+			on = "off"
+		}
+		fmt.Fprintf(&b, "defaults {\n  adaptive_backpressure {\n    enabled %s\n    min_total 2\n    queued_percent 10\n  }\n}\n", on)
+	}
+	b.WriteString(s.TopExtra)
 	b.WriteString("pull_api {\n")
+	b.WriteString(s.PullExtra)
 	if s.SecretFile != "" {
 		fmt.Fprintf(&b, "  auth token \"file:%s\"\n", s.SecretFile)
 	} else {
@@ -79,8 +92,13 @@ func (s rlSpec) text() string {
 		fmt.Fprintf(&b, "  max_batch %d\n", s.MaxBatch)
 	}
 	b.WriteString("}\n")
-	if s.AdminTok != "" {
-		fmt.Fprintf(&b, "admin_api {\n  auth token raw:%s\n}\n", s.AdminTok)
+	if s.AdminTok != "" || s.AdminExtra != "" {
+		b.WriteString("admin_api {\n")
+		if s.AdminTok != "" {
+			fmt.Fprintf(&b, "  auth token raw:%s\n", s.AdminTok)
+		}
+		b.WriteString(s.AdminExtra)
+		b.WriteString("}\n")
 	}
 	for _, rt := range s.Routes {
 		fmt.Fprintf(&b, "%s {\n", rt.Path)
@@ -143,6 +161,9 @@ func genRlSpec(r *rng) rlSpec {
 	if r.chance(12) {
 		s.GlobalBurst = pick(r, []int{3, 7})
 	}
+	if r.chance(25) {
+		s.Backpress = 1 + r.intn(2)
+	}
 	perm := append([]string(nil), rlPulls...)
 	for i := len(perm) - 1; i > 0; i-- {
 		j := r.intn(i + 1)
@@ -157,7 +178,11 @@ func genRlSpec(r *rng) rlSpec {
 
 // an edited copy that still reloads live (no listener / pull_api / defaults change)
 func mutateRlSpec(r *rng, a rlSpec) rlSpec {
-	b := rlSpec{PullTok: a.PullTok, AdminTok: a.AdminTok, GlobalBurst: a.GlobalBurst, MaxBatch: a.MaxBatch, SecretFile: a.SecretFile}
+	b := rlSpec{PullTok: a.PullTok, AdminTok: a.AdminTok, GlobalBurst: a.GlobalBurst, MaxBatch: a.MaxBatch, SecretFile: a.SecretFile,
+		Backpress: a.Backpress, PullExtra: a.PullExtra, TopExtra: a.TopExtra, AdminExtra: a.AdminExtra}
+	if a.Backpress > 0 && r.chance(50) {
+		b.Backpress = 3 - a.Backpress // admission control switched on <-> off: applies live
+	}
 	b.Routes = append([]rlRoute(nil), a.Routes...)
 	edits := 1 + r.intn(4)
 	for e := 0; e < edits; e++ {
@@ -416,12 +441,25 @@ func compileText(text string) (config.Compiled, error) {
 	return compiled, nil
 }
 
+// a store with standing backlog: what the adaptive admission controller of every runtime in these cases reads
+var rlPressureStore = func() queue.Store {
+	st := queue.NewMemoryStore()
+	for i := 0; i < 6; i++ {
+		_ = st.Enqueue(queue.Envelope{ID: fmt.Sprintf("bp%d", i), Route: "/bp", Target: "pull"})
+	}
+	return st
+}()
+
 func newRlRuntime(text string) (*app.VerifRuntime, error) {
 	compiled, err := compileText(text)
 	if err != nil {
 		return nil, err
 	}
-	return app.VerifNewRuntime(compiled, nil)
+	rt, err := app.VerifNewRuntime(compiled, nil)
+	if err == nil {
+		rt.SetQueueStore(rlPressureStore)
+	}
+	return rt, err
 }
 
 type rlMid struct {
@@ -472,6 +510,9 @@ func cmdReload(args []string) error {
 	for c := 0; c < *nc; c++ {
 		rlReloadCase(r, c, dir, emit)
 	}
+	for i := range rlRestartEdits {
+		rlReloadCaseWith(r, 1000+i, dir, emit, i)
+	}
 	for c := 0; c < *nc/2; c++ {
 		rlRequestCase(r, c, dir, emit)
 	}
@@ -484,11 +525,42 @@ func cmdReload(args []string) error {
 	return nil
 }
 
+// settings that requiresRestartForReload must refuse to apply live, one at a time
+var rlRestartEdits = []struct{ name, pull, top, admin string }{
+	{"pull_api.max_batch", "  max_batch 7\n", "", ""},
+	{"pull_api.default_lease_ttl", "  default_lease_ttl 11s\n", "", ""},
+	{"pull_api.max_lease_ttl", "  max_lease_ttl 95s\n", "", ""},
+	{"pull_api.default_max_wait", "  default_max_wait 1s\n", "", ""},
+	{"pull_api.max_wait", "  max_wait 3s\n", "", ""},
+	{"pull_api.prefix", "  prefix /papi\n", "", ""},
+	{"pull_api.listen", "  listen :19443\n", "", ""},
+	{"pull_api.grpc_listen", "  grpc_listen :19444\n", "", ""},
+	{"admin_api.listen", "", "", "  listen :12019\n"},
+	{"admin_api.prefix", "", "", "  prefix /adm\n"},
+	{"defaults.max_body", "", "defaults {\n  max_body 1mb\n}\n", ""},
+	{"defaults.max_headers", "", "defaults {\n  max_headers 32kb\n}\n", ""},
+	{"defaults.publish_policy", "", "defaults {\n  publish_policy {\n    direct off\n  }\n}\n", ""},
+	{"queue_limits", "", "queue_limits {\n  max_depth 77\n}\n", ""},
+	{"queue_retention", "", "queue_retention {\n  max_age 1d\n}\n", ""},
+	{"delivered_retention", "", "delivered_retention {\n  max_age 1h\n}\n", ""},
+	{"dlq_retention", "", "dlq_retention {\n  max_age 2d\n}\n", ""},
+	{"observability", "", "observability {\n  access_log off\n}\n", ""},
+}
+
 var rlFailKinds = []string{"none", "none", "none", "none", "unreadable", "parse", "compile", "secret", "restart"}
 
 func rlReloadCase(r *rng, c int, dir string, emit func(interface{})) {
+	rlReloadCaseWith(r, c, dir, emit, -1)
+}
+
+// forceRestart ≥ 0: a restart case with that entry of rlRestartEdits (the sweep over all of them)
+func rlReloadCaseWith(r *rng, c int, dir string, emit func(interface{}), forceRestart int) {
 	a := genRlSpec(r)
 	kind := pick(r, rlFailKinds)
+	if forceRestart >= 0 {
+		kind = "restart"
+		a.Backpress = 0
+	}
 	secretPath := filepath.Join(dir, fmt.Sprintf("tok%d", c))
 	if kind == "secret" {
 		_ = os.WriteFile(secretPath, []byte(a.PullTok), 0o600)
@@ -497,17 +569,35 @@ func rlReloadCase(r *rng, c int, dir string, emit func(interface{})) {
 	b := mutateRlSpec(r, a)
 	cfgPath := filepath.Join(dir, fmt.Sprintf("Hookaidofile.r%d", c))
 	newText := b.text()
+	restartEdit := ""
 	switch kind {
 	case "parse":
 		newText = newText + "\n/broken {\n  pull {\n"
 	case "compile":
 		newText = newText + "\n/dup {\n  pull { path " + b.Routes[0].PullPath + " }\n}\n/nopull {\n}\n"
 	case "restart":
+		// exactly one restart-requiring setting differs (next to whatever live-reloadable edits b carries)
 		bb := b
-		bb.MaxBatch = 7 + a.MaxBatch
+		v := pick(r, rlRestartEdits)
+		for a.Backpress > 0 && strings.HasPrefix(v.top, "defaults") {
+			v = pick(r, rlRestartEdits)
+		}
+		if forceRestart >= 0 {
+			v = rlRestartEdits[forceRestart]
+		}
+		bb.PullExtra += v.pull
+		bb.TopExtra += v.top
+		bb.AdminExtra += v.admin
 		newText = bb.text()
+		restartEdit = v.name
 	}
-	base := map[string]interface{}{"k": "reload", "case": c, "fail": kind, "oldText": a.text(), "newText": newText}
+	if kind == "restart" {
+		if _, err := compileText(newText); err != nil {
+			emit(map[string]interface{}{"k": "cfgerror", "stage": "restart:" + restartEdit, "err": err.Error(), "text": newText})
+			return
+		}
+	}
+	base := map[string]interface{}{"k": "reload", "case": c, "fail": kind, "restartEdit": restartEdit, "oldText": a.text(), "newText": newText}
 	rtA, err := newRlRuntime(a.text())
 	if err != nil {
 		emit(map[string]interface{}{"k": "cfgerror", "stage": "old", "err": err.Error(), "text": a.text()})
@@ -814,7 +904,7 @@ func rlFileCase(r *rng, c int, root string, emit func(interface{}), crash bool) 
 	b := mutateRlSpec(r, a)
 	oldText, newText := a.text(), b.text()
 	variant := pick(r, []string{"app.raw", "mcp.write_only", "mcp.reload_ok", "mcp.reload_fail", "mcp.invalid", "mgmt.upsert", "mgmt.upsert_reload_fail", "mgmt.delete",
-		"mgmt.delete_validate_fail", "mgmt.move", "mgmt.move_validate_fail", "app.raw_new"})
+		"mgmt.delete_validate_fail", "mgmt.move", "mgmt.move_validate_fail", "app.raw_new", "app.rename_fails", "mcp.rename_fails"})
 	base := map[string]interface{}{"k": "file", "case": c, "variant": variant, "old": oldText}
 	if variant == "app.raw_new" {
 		base["old"] = nil
@@ -834,7 +924,31 @@ func rlFileCase(r *rng, c int, root string, emit func(interface{}), crash bool) 
 	})
 	outcome := "applied"
 	var errText string
+	if strings.HasSuffix(variant, ".rename_fails") {
+		// the temp file disappears just before the rename: the replacement must fail and leave the old content in place
+		verifhook.Set(prefix+"closed", func(label string, hit int) {
+			snaps = append(snaps, snapDir(dir, "Hookaidofile", "closed"))
+			ents, _ := os.ReadDir(dir)
+			for _, e := range ents {
+				if e.Name() != "Hookaidofile" {
+					_ = os.Remove(filepath.Join(dir, e.Name()))
+				}
+			}
+		})
+	}
 	switch variant {
+	case "app.rename_fails":
+		base["new"] = newText
+		if err := app.VerifWriteFileAtomic(cfgPath, []byte(newText)); err != nil {
+			outcome, errText = "error", err.Error()
+		}
+	case "mcp.rename_fails":
+		base["new"] = newText
+		res := mcpCall(cfgPath, "config_apply", map[string]interface{}{"path": cfgPath, "content": newText, "mode": "write_only"})
+		base["mcp"] = res
+		if res["is_error"] == true || res["applied"] != true {
+			outcome = "error"
+		}
 	case "app.raw", "app.raw_new":
 		base["new"] = newText
 		if err := app.VerifWriteFileAtomic(cfgPath, []byte(newText)); err != nil {
